@@ -865,8 +865,14 @@ package raft
 //@   ensures ioOK ==> err == nil
 //@   ensures err == nil ==> f != nil && fresh(f) && fPos[f] == 0 && !fClosed[f]
 //@   ensures forall g int :: g != f ==> fPos[g] == old(fPos[g]) && fSynced[g] == old(fSynced[g]) && fClosed[g] == old(fClosed[g])
+// renames: number of successful renames (a rename is what makes a completely written file the
+// visible one: the publication step of every write-temp-then-rename protocol)
+//@ ghost renames int
 //@ extern os.Rename(oldpath, newpath) (err)
+//@   modifies renames
 //@   ensures ioOK ==> err == nil
+//@   ensures err == nil ==> renames == old(renames) + 1
+//@   ensures err != nil ==> renames == old(renames)
 //@ extern os.Remove(name) (err)
 //@ extern os.RemoveAll(path) (err)
 
@@ -936,6 +942,7 @@ package raft
 //@   at call encodeLogEntry assert [offset-current] arg1.Offset == fPos[tmpFile] && arg0 == tmpFile
 
 //@ func persistentLog.rename
+//@   ensures [published] err == nil ==> renames == old(renames) + 1
 //@   flags lockheld
 //@   requires tmpFile != nil && l.file != nil
 //@   ensures [reopened] err == nil ==> l.file != nil
@@ -965,6 +972,7 @@ package raft
 //@ extern os.ReadFile(name) (data, err)
 
 //@ func persistentStateStorage.SetState
+//@   ensures [published] err == nil ==> renames == old(renames) + 1
 //@   ensures [cache] err == nil ==> p.state != nil && p.state.term == term && p.state.votedFor == votedFor
 //@   at call os.Rename assert [complete-synced-closed-before-rename] fSynced[tmpFile] && fClosed[tmpFile] && p.state.term == term && p.state.votedFor == votedFor
 //@   at call encodePersistentState assert [writes-new-state] arg0 == tmpFile && arg1.term == term && arg1.votedFor == votedFor
